@@ -46,10 +46,11 @@ type c07Scenario struct {
 	LagMin    int     `json:"lag_min"`
 	LagMax    int     `json:"lag_max"`
 	WriteMode string  `json:"write_sizes"`
-	HitDir    string  `json:"hit_direction,omitempty"` // script "exact": c2s | s2c
-	HitSeq    uint16  `json:"hit_seq,omitempty"`       // the packet whose exchange gets the fate
-	HitFate   string  `json:"hit_fate,omitempty"`      // query-lost | answer-lost | query-dup
-	HitTimes  int     `json:"hit_times,omitempty"`     // how many consecutive exchanges of that packet are hit (<=3)
+	HitDir    string  `json:"hit_direction,omitempty"`      // script "exact": c2s | s2c
+	HitSeq    uint16  `json:"hit_seq,omitempty"`            // the packet whose exchange gets the fate
+	HitFate   string  `json:"hit_fate,omitempty"`           // query-lost | answer-lost | query-dup
+	HitTimes  int     `json:"hit_times,omitempty"`          // how many consecutive exchanges of that packet are hit (<=3)
+	DupCopies int     `json:"dup_copies_at_once,omitempty"` // >1: the copies of a duplicated query reach the server at the same time
 	Seed      int64   `json:"seed"`
 }
 
@@ -323,6 +324,7 @@ func c07Run(rec *vcommon.Rec, sc *c07Scenario) {
 		b := sc.StartS2C + uint16(atomic.LoadInt64(&s2c.read)/int64(maxInt(1, downFrag)))
 		return near(a) || near(b)
 	}
+	s.comm.DupConcurrent = sc.DupCopies
 	s.comm.SetScript(func(n int64, q *mdns.Msg) (vFate, int) {
 		if atomic.LoadInt32(&phaseTransparent) != 0 || sc.Script == "transparent" {
 			return vDelivered, 0
@@ -690,6 +692,9 @@ func c07Scenarios(rec *vcommon.Rec) []*c07Scenario {
 	add(c07Scenario{Script: "wraploss", UpFrag: 6, DownFrag: 6, StartC2S: 32768, StartS2C: 65535, BytesC2S: 34000 * 6, BytesS2C: 3000 * 6, PDup: 0.01})
 	// 4. duplicate and replay storms (old queries from >=128 and >=65536 packets ago)
 	add(c07Scenario{Script: "dupstorm", PDup: 0.5, UpFrag: 8, DownFrag: 8, StartC2S: pick(), StartS2C: pick(), BytesC2S: 8000 * 8, BytesS2C: 8000 * 8})
+	// the same with the copies of every duplicated query arriving at the same time (one handler goroutine per datagram)
+	add(c07Scenario{Script: "dupstorm", PDup: 0.5, DupCopies: 2, UpFrag: 8, DownFrag: 8, StartC2S: pick(), StartS2C: pick(), BytesC2S: 8000 * 8, BytesS2C: 8000 * 8})
+	add(c07Scenario{Script: "dupstorm", PDup: 0.7, DupCopies: 4, UpFrag: 8, DownFrag: 8, StartC2S: 65000, StartS2C: 65300, BytesC2S: 12000 * 8, BytesS2C: 12000 * 8})
 	add(c07Scenario{Script: "replay", PReplay: 0.2, LagMin: 128, LagMax: 2000, UpFrag: 6, DownFrag: 6, StartC2S: pick(), StartS2C: pick(), BytesC2S: 12000 * 6, BytesS2C: 12000 * 6})
 	add(c07Scenario{Script: "replay", PReplay: 0.02, LagMin: 65400, LagMax: 65700, UpFrag: 4, DownFrag: 4, StartC2S: 0, StartS2C: 0, BytesC2S: long * 4, BytesS2C: long * 4})
 	// 5. heavy bursts: write errors may surface, the prefix property and delivery after the faults stop must still hold
